@@ -103,8 +103,8 @@ var registry = []propertySpec{
 		Harnesses: []harnessSpec{
 			{Name: "VerifC02_Levels", Quick: tierSpec{Cases: 8}, Thorough: tierSpec{First: 8, Cases: 4, Split: 3}, Sched: -1,
 				Bounds: "1..2 (thorough: 3) lines x {AllowMultiLine} x {AllowInvalidIndents}; per line: symbolic level digit 0..L, tag from 7 (NOTE INDI FAM HUSB NAME ZZ 7), optional 1-byte xref, 1 or 2 blanks, value of 0/1/2 printable bytes (incl. blank, '@', digits), terminator LF/CR/CRLF/LFLF"},
-			{Name: "VerifC02_NormalForm", Quick: tierSpec{Cases: 16}, Thorough: tierSpec{Cases: 16}, Sched: -1,
-				Bounds: "4-line files with a run of 1..3 symbolic blanks / tabs after the level, after the xref, or around the value, or with 2 hostile bytes (0x20..0x7e) inside the xref x all option combinations: accepted files have '@'-free pointers and a fixpoint normal form"},
+			{Name: "VerifC02_NormalForm", Quick: tierSpec{Cases: 20}, Thorough: tierSpec{Cases: 20}, Sched: -1,
+				Bounds: "4-line files with a run of 1..3 symbolic blanks / tabs after the level, after the xref, or around the value, or with 2 hostile bytes (0x20..0x7e) inside the xref, or with white space outside ASCII (10 paddings on each side) around a value x all option combinations: accepted files have '@'-free pointers and a fixpoint normal form"},
 			{Name: "VerifC02_Shape", Quick: tierSpec{Cases: 12}, Thorough: tierSpec{Cases: 16}, Sched: -1,
 				Bounds: "files of 4, 5 and 6 (thorough 7) lines with fixed tags and values in which every level digit after the first line is symbolic 0..3: all walks (descents, dedents over several levels, too-deep lines after a dedent) x {AllowInvalidIndents} x {plain tags, a family with HUSB / CHIL / WIFE lines}"},
 		},
